@@ -725,3 +725,19 @@ Proof.
     destruct (emits_r_raised _ _ _ _ E2) as [(A & _ & C & _) _]. rewrite A, C. exact Hl.
   - eapply IH. exact H.
 Qed.
+
+(* ------------------------------------------------------------------------------------------------------------
+   refused driver calls are inert
+   ------------------------------------------------------------------------------------------------------------ *)
+Lemma refused_step_inert fuel nxt s : do_sop fuel nxt ORefused s = Ok s.
+Proof. reflexivity. Qed.
+
+(* any number of refused calls, anywhere in a session, can be deleted without changing anything that follows *)
+Theorem refused_calls_deletable fuel nxt ops : forall s,
+  run_sops fuel nxt ops s = run_sops fuel nxt (filter (fun o => negb (is_refused o)) ops) s.
+Proof.
+  induction ops as [|o ops IH]; intros s; [reflexivity|]. destruct o as [e|n|]; cbn [filter is_refused negb run_sops].
+  - destruct (do_sop fuel nxt (OUntil e) s); [apply IH | reflexivity | reflexivity].
+  - destruct (do_sop fuel nxt (OTake n) s); [apply IH | reflexivity | reflexivity].
+  - cbn [do_sop]. apply IH.
+Qed.
